@@ -3,7 +3,7 @@ from __future__ import annotations
 
 import warnings
 
-from .common import Suite, errname, merge
+from .common import Oracle, Suite, errname, merge
 
 GEN_UNITS = ["Disabled", "ContextPolicy", "DisabledHashers"]
 LEAN_TARGETS = ["PasslibVerif.Props.C18"]
@@ -98,7 +98,10 @@ def correspond(ctx):
                     cur = c.enable(cur)
                 except Exception:  # noqa: BLE001
                     break
-    return merge(suite, s_hist)
+    o_none = Oracle(ctx, "missing-hash-after-reconfiguration")
+    for tag, inp, ok, obs, exp in none_after_reconfiguration_cases(rng, 25 if not ctx.thorough else 500):
+        o_none.check(tag, ok, inp, obs, exp)
+    return merge(suite, s_hist, o_none)
 
 
 def every_scheme_hash():
@@ -126,14 +129,98 @@ def every_scheme_hash():
     return out
 
 
+def none_after_reconfiguration_cases(rng, rounds):
+    """verification against a missing hash stays False and costs one dummy verification of the CURRENT default scheme after the
+    context was reconfigured in place (update / load(update=True) / load), whether or not the dummy hash had been primed before.
+    yields (tag, input, ok, observed, expected)"""
+    from passlib.context import CryptContext
+
+    pool = ["md5_crypt", "sha256_crypt", "des_crypt", "ldap_md5", "sha1_crypt"]
+    for _ in range(rounds):
+        first = rng.sample(pool, rng.randrange(1, 4))
+        c = CryptContext(schemes=first + ["unix_disabled"], sha256_crypt__rounds=1000, sha1_crypt__rounds=2)
+        hist = []
+        for _k in range(rng.randrange(1, 4)):
+            prime = rng.random() < 0.7
+            if prime:
+                c.verify("x", None) if rng.random() < 0.5 else c.dummy_verify()
+            new = rng.sample(pool, rng.randrange(1, 4))
+            how = rng.choice(["update-schemes", "update-default", "load-update", "load"])
+            hist.append([how, new, "primed" if prime else "fresh"])
+            try:
+                if how == "update-schemes":
+                    c.update(schemes=new + ["unix_disabled"])
+                elif how == "update-default":
+                    c.update(schemes=sorted(set(c.schemes()) | set(new)), default=new[0])
+                elif how == "load-update":
+                    c.load({"schemes": new + ["unix_disabled"]}, update=True)
+                else:
+                    c.load({"schemes": new + ["unix_disabled"], "sha256_crypt__rounds": 1000, "sha1_crypt__rounds": 2})
+            except Exception as e:  # noqa: BLE001
+                hist[-1].append(errname(e))
+                continue
+            used = []
+            real_verify = c.verify
+
+            def spy(secret, hash, *a, _rv=real_verify, **k):
+                if hash is not None:
+                    used.append(c.identify(hash))
+                return _rv(secret, hash, *a, **k)
+
+            c.verify = spy
+            try:
+                obs = []
+                for call in (lambda: real_verify("letmein", None), lambda: c.verify_and_update("letmein", None)):
+                    del used[:]
+                    try:
+                        r = call()
+                    except Exception as e:  # noqa: BLE001
+                        r = errname(e)
+                    obs.append((r, list(used)))
+            finally:
+                del c.verify
+            want_scheme = c.default_scheme()
+            exp = [(False, [want_scheme]), ((False, None), [want_scheme])]
+            # verify(None) calls dummy_verify -> self.verify(dummy_secret, dummy_hash): one verification, of the current default scheme
+            yield ("none-after-reconfiguration", {"op": "none-after-reconfiguration", "first": first, "history": list(hist)}, obs == exp, obs, exp)
+
+
 def search(ctx, broken, seeds):
     """the property's statement evaluated on the real code"""
     warnings.simplefilter("ignore")
     from passlib.context import CryptContext
     from passlib.hash import bcrypt, des_crypt, ldap_md5, md5_crypt, sha256_crypt
 
+    for tag, inp, ok, obs, exp in none_after_reconfiguration_cases(ctx.rng, 40):
+        if not ok:
+            return {"input": inp, "observed": obs, "expected": exp, "check": tag}
     originals = [md5_crypt.hash("pw"), sha256_crypt.using(rounds=1000).hash("pw"), des_crypt.hash("pw"), ldap_md5.hash("pw")]
     extra = [v for _n, v in every_scheme_hash()]
+    # both disabled hashers in one context, either order: enable() restores through the handler that recognises the string (the first claimer)
+    from passlib import registry
+
+    for order in (["django_disabled", "unix_disabled"], ["unix_disabled", "django_disabled"]):
+        for pos in (0, 1, 2):
+            sl = ["md5_crypt", "sha256_crypt"][:pos] + order + ["md5_crypt", "sha256_crypt"][pos:]
+            c = CryptContext(sl)
+            for h0 in originals[:2]:
+                for x in ("*" + h0, "!" + h0, "!", "*", h0, "!abcdef"):
+                    claimer = next((n for n in sl if registry.get_crypt_handler(n).identify(x)), None)
+                    if claimer == "unix_disabled":
+                        want = x[1:] if len(x) > 1 else "ValueError"
+                    elif claimer == "django_disabled":
+                        want = "ValueError"
+                    else:
+                        want = x
+                    try:
+                        got = c.enable(x)
+                    except ValueError:
+                        got = "ValueError"
+                    except Exception as e:  # noqa: BLE001
+                        got = errname(e)
+                    if got != want or c.is_enabled(x) is not (claimer not in ("unix_disabled", "django_disabled")):
+                        return {"input": {"op": "enable-two-disabled-hashers", "schemes": sl, "string": x}, "observed": {"enable": got, "is_enabled": c.is_enabled(x)},
+                                "expected": {"enable": want, "recognised_by": claimer}}
     lists = [["md5_crypt", "sha256_crypt", "des_crypt", "ldap_md5"]]
     for schemes in lists:
         for pos in range(len(schemes) + 1):
